@@ -165,3 +165,48 @@ DDL type, with DECIMAL = NUMERIC -/
 def family (d : DTy) : W := if d.t0 == .decimal then .numeric else d.t0
 
 end Spec.Diff
+
+/-! ## The class of schemas the theorems quantify over -/
+namespace Spec.Diff
+open Model.Diff
+
+/-- string default that the regex normalisation leaves alone: non-empty, no `'`, no newline,
+not of the form `(...)` -/
+def strPlain (v : List Char) : Bool :=
+  !v.isEmpty && !v.contains '\'' && noNl v && (wrapped '(' ')' v).isNone
+
+/-- expression default in the form SQLite stores it: no newline, no padding, and if it is
+`(m)` then `m` is unpadded, non-empty and not again of the form `(...)` -/
+def exprPlain (e : List Char) : Bool :=
+  !e.isEmpty && noNl e && trim e == e &&
+  (match parenInner e with
+   | some m => !m.isEmpty && trim m == m && (wrapped '(' ')' m).isNone
+   | none => true)
+
+def dfltPlain : Option Dflt → Bool
+  | none => true
+  | some (.str v) => strPlain v
+  | some (.expr e) => exprPlain e
+
+/-- a column is inside the proved class for settings `cfg`: its type reflects by name (when
+types are compared) and its default is plain (when defaults are compared) -/
+def colOk (cfg : Cfg) (c : Col) : Bool :=
+  (!cfg.compareType || known (ddlTy c.ty)) && (!cfg.compareDefault || dfltPlain c.dflt)
+
+/-- names of the indexes and unique constraints of a table (one namespace in the comparison) -/
+def namedNames (t : Table) : List String := (namedOf t.uqs t.ixs).map (·.name)
+
+structure TableWF (t : Table) : Prop where
+  cols_nodup : (t.cols.map (·.name)).Nodup
+  named_nodup : (namedNames t).Nodup
+  fk_nodup : (t.fks.map (fkSig t.name)).Nodup
+  fk_names_nodup : (t.fks.map (·.name)).Nodup
+  uq_sig_nodup : (t.uqs.map uqSig).Nodup
+
+structure WF (a : Schema) : Prop where
+  tables_nodup : (a.map (·.name)).Nodup
+  table_wf : ∀ t ∈ a, TableWF t
+
+def SchemaOk (cfg : Cfg) (a : Schema) : Prop := ∀ t ∈ a, ∀ c ∈ t.cols, colOk cfg c = true
+
+end Spec.Diff
